@@ -283,6 +283,9 @@ def validate_cascade(framework, cascade, cascade_name=None, fallback_used: bool 
     expanded = sc.odict()
     for stage, includes in cascade_dict.items():
         expanded[stage] = framework.get_charac_includes(includes)
+        for include in sc.promotetolist(includes):
+            if include in framework.characs.index and sc.isstring(framework.characs.at[include, "denominator"]) and framework.characs.at[include, "denominator"].strip():
+                raise InvalidCascade('Stage "%s" contains the characteristic "%s", which has a denominator - cascade stages must be numbers of people' % (stage, include))
         duplicated = sorted({x for x in expanded[stage] if expanded[stage].count(x) > 1})
         if duplicated:
             raise InvalidCascade('Stage "%s" counts the compartments %s more than once after expanding characteristics' % (stage, duplicated))
